@@ -1,4 +1,5 @@
 import MV.Basic
+import MV.Model.Interval
 /-!
 C12 — kernel density estimates.  Kernels and the weighted average over exact
 rationals (Epanechnikov, delta); the boundary (reflection) logic is written
@@ -37,6 +38,18 @@ structure Ops (α : Type) where
   one : α
   add : α → α → α
   sub : α → α → α
+
+/-- the weighted average of enclosures with exact rational end points: `I.add`/`I.mul` round to the grid
+2^-128, which wipes out values far below it; for non-negative weights the lower/upper ends combine
+monotonically without any rounding, keeping the relative precision of `f` (soundness over ℝ:
+`wavgExact_sound` in `Props/C12Gauss.lean`) -/
+def wavgExact (f : Rat → I) (xs ws : List Rat) (x : Rat) : I :=
+  let W := sum ws
+  let r := (xs.zip ws).foldl (fun (s : Rat × Rat) (p : Rat × Rat) => let e := f (x - p.1); (s.1 + p.2 * e.lo, s.2 + p.2 * e.hi)) (0, 0)
+  ⟨r.1 / W, r.2 / W⟩
+
+/-- enclosure of the Gaussian kernel density φ(u/h)/h with exact end points -/
+def gaussPDFX (h u : Rat) : I := let e := I.phi (u / h); ⟨e.lo / h, e.hi / h⟩
 
 def sumN {α} (o : Ops α) (n : Nat) (f : Nat → α) : α := (List.range n).foldl (fun s i => o.add s (f i)) o.zero
 
